@@ -25,7 +25,7 @@ UT = {1: 'SETUP', 2: 'REFRESH', 3: 'SHOW', 4: 'SEPARATOR', 5: 'PROMPT', 7: 'INPU
 MON = {"C04": 4, "C05": 5, "C06": 6, "C07": 7, "C08": 8, "C18": 18, "C17": 17}
 # which user-event tags / loop events each property's correspondence compares
 PROJ_U = {
-    "C04": {1, 2, 3, 4, 15, 17}, "C05": {1, 2, 3, 7, 10, 15, 17}, "C06": {5, 7, 12, 18}, "C07": {7, 19, 17, 18, 10},
+    "C04": {1, 2, 3, 4, 15, 17}, "C05": {1, 2, 3, 7, 10, 12, 15, 17}, "C06": {5, 7, 12, 18}, "C07": {7, 19, 17, 18, 10},
     "C08": {1, 2, 3, 8, 15, 17}, "C18": {5, 11, 12, 13, 16}, "C17": {3, 4},
 }
 PROJ_L = {
@@ -106,6 +106,30 @@ def classify(prop, case, res, idx):
         r = lib.model_run("smon", [mon_case(105, case, res[1])])[0]
         if r[0] == 1:
             return "modal-push-after-close-in-same-callback"
+    before = res[1][:idx]
+    if prop == "C05" and kind == "INPUT":
+        # finding F16: (2) run() again after a force-quit; (1) the same screen object twice on the stack
+        if any(e[0] == 12 for e in before) and sum(1 for e in before if e[0] == 14) >= 2:
+            return "input-beneath-modal:rerun-after-force-quit"
+        stack, twice = [], False
+        for e in before:
+            if e[0] == 19 and e[1] == 15:
+                k, eid, scr = e[2][0], e[2][1], e[2][2]
+                if k == 0:
+                    stack.append(scr)
+                elif k == 1:
+                    stack.insert(0, scr)
+                elif stack:
+                    stack.pop()
+                twice = twice or len(stack) != len(set(stack))
+        if twice:
+            return "input-beneath-modal:same-screen-twice-on-stack"
+    if prop == "C06" and kind == "INPUT":
+        # finding F15: a later, refused request of the same screen overwrote the per-screen input args
+        if any(e[0] == 19 and e[1] == 11 for e in before) and any(e[0] == 12 for e in before):
+            ready = [e for e in before if e[0] == 19 and e[1] == 12]
+            if ready and ready[-1][3] == ev[3] and ev[2][0] in [e[2][0] for e in before if e[0] == 19 and e[1] == 18]:
+                return "args-overwritten-by-refused-request"
     return "%s:%s" % (prop, kind)
 
 
@@ -116,7 +140,8 @@ def gen_cases(prop, tier, rng):
         r = rng.random()
         cases.append(screen_gen.gen_case(rng, plausible=(r < 0.7), malformed=(r > 0.88)))
     for k in range(n // 3):
-        cases.append(screen_gen.gen_focus_case(rng, prop))
+        # C17 (what the framework writes during a session): also the overlapping-prompt family, where a prompt is re-printed
+        cases.append(screen_gen.gen_focus_case(rng, "C18" if (prop == "C17" and k % 2) else prop))
     return cases
 
 
@@ -149,6 +174,17 @@ def run(chk, tier, prop):
             chk.nontriv(c)
         if len(chk.samples) < 2 and len(i[1]) > 60:
             chk.sample(dict(session=c, implementation_trace=[show(e) for e in i[1] if e[0] == 19][:50], outcomes=i[0]))
+        if prop == "C17" and len(i) > 4:
+            # everything the session wrote to the console: no carriage return, backspace, escape, tab, VT, FF, DEL
+            # (the sessions' own texts contain none of them)
+            badc = sorted({ch for ch in i[4] if ord(ch) in (8, 9, 11, 12, 13, 27, 127)})
+            if badc:
+                pos = min(i[4].index(ch) for ch in badc)
+                chk.violation("control-char-in-session-output",
+                              "C17_append_only / C17_charset_framework: the session's console output contains %r (…%r…)" % (badc, i[4][max(0, pos - 30):pos + 10]),
+                              dict(kind="screen", prop=prop, case=c, output_excerpt=i[4][max(0, pos - 200):pos + 50]), found=True)
+                nbad += 1
+                continue
         if v[0] == 0:
             key = classify(prop, c, i, v[1])
             chk.violation(key, "%s acceptor rejects the implementation's own trace at event %d: %s" % (prop, v[1], show(i[1][v[1]])),
@@ -156,6 +192,16 @@ def run(chk, tier, prop):
             nbad += 1
         elif project(prop, i[:4]) != project(prop, m[:4]):
             pi, pm = project(prop, i[:4]), project(prop, m[:4])
+            if prop == "C18":
+                # the hand-off theorem promises one ready signal per outstanding requester: one that the model
+                # delivers and the implementation never does is a concrete failure
+                ri = [e[2][0] for e in i[1] if e[0] == 19 and e[1] == 12]
+                rm = [e[2][0] for e in m[1] if e[0] == 19 and e[1] == 12]
+                if len(ri) < len(rm) and ri == rm[:len(ri)] and i[0] and i[0][-1] == 4:
+                    chk.violation("C18:ready-signal-missing", "a requester is never told that its request failed/succeeded: the model delivers ready signals to handlers %s, the implementation only to %s and then waits for ever" % (rm, ri),
+                                  dict(kind="screen", prop=prop, case=c, trace=pretty(i[1])), found=True)
+                    nbad += 1
+                    continue
             k = next((k for k in range(min(len(pi[1]), len(pm[1]))) if pi[1][k] != pm[1][k]), min(len(pi[1]), len(pm[1])))
             chk.violation("corr:%s" % prop,
                           "implementation and model disagree on the %s-relevant part of a session (first difference at projected event %d; the acceptor still accepts the implementation trace)" % (prop, k),
@@ -190,8 +236,7 @@ def corpus_cases(prop):
         for f in sorted(os.listdir(p)):
             if f.endswith(".json"):
                 d = json.load(open(os.path.join(p, f)))
-                if prop in d.get("props", [prop]):
-                    out.append(d["case"])
+                out.append(d["case"])         # every corpus session is a valid session for every screen-layer property
     return out
 
 
